@@ -292,6 +292,9 @@ class MailDriver:
         w = self.w
         d = {"_": False}
         for m, mbx in (w.server.active_mailboxes.items() if w.server else []):
+            if getattr(w, "lm", None) is not None:     # replay mode: logical mtimes
+                d[m] = w.lm.get(m, 1) > int(mbx.mtime)
+                continue
             try:
                 path = w.folder_path(m)
                 fm = max(int(os.path.getmtime(path)), int(os.path.getmtime(path / ".mh_sequences")))
